@@ -16,6 +16,9 @@ pub struct SrcFile {
   pub hex: Option<String>,
   /// normal | empty | non_utf8 | oversize | binary
   pub kind: String,
+  /// this path is a hard link to that other file of the world (same inode, same content)
+  #[serde(default)]
+  pub link_to: Option<String>,
 }
 
 impl SrcFile {
@@ -188,7 +191,24 @@ impl CliWorld {
       if p.is_dir() {
         let _ = std::fs::remove_dir_all(&p);
       }
+      if f.link_to.is_some() {
+        continue; // created below, once its target exists
+      }
+      // break a link left over from an earlier materialisation before writing
+      let _ = std::fs::remove_file(&p);
       std::fs::write(&p, f.bytes()).unwrap_or_else(|e| panic!("write {}: {e}", p.display()));
+    }
+    for f in &self.files {
+      if let Some(t) = &f.link_to {
+        let p = root.join(&f.path);
+        if p.is_dir() {
+          let _ = std::fs::remove_dir_all(&p);
+        }
+        let _ = std::fs::remove_file(&p);
+        if std::fs::hard_link(root.join(t), &p).is_err() {
+          std::fs::write(&p, f.bytes()).unwrap_or_else(|e| panic!("write {}: {e}", p.display()));
+        }
+      }
     }
   }
 }
@@ -207,6 +227,8 @@ pub struct GenOpts {
   pub fix_heavy: bool,
   /// include the templates whose semantics depend on evaluation order of hash maps
   pub order_sensitive_rules: bool,
+  /// some files are hard links to other files of the tree
+  pub hard_links: bool,
 }
 
 /// Languages used by CLI worlds (those that have rule templates).
@@ -358,14 +380,14 @@ pub fn gen_world(rng: &mut Rng, o: &GenOpts) -> CliWorld {
     let special = o.allow_special && rng.chance(0.12);
     let f = if special {
       match rng.below(8) {
-        0 | 1 | 2 => SrcFile { path, text: String::new(), hex: None, kind: "empty".into() },
-        3 | 4 => SrcFile { path, text: String::new(), hex: Some("6c657420fffe203d20313b0a".into()), kind: "non_utf8".into() },
-        5 => SrcFile { path, text: "let a = \u{0}1;\nconsole.log(a);\n".into(), hex: None, kind: "binary".into() },
-        6 => SrcFile { path, text: String::new(), hex: None, kind: "big_short".into() },
-        _ => SrcFile { path, text: String::new(), hex: None, kind: "oversize".into() },
+        0 | 1 | 2 => SrcFile { path, text: String::new(), hex: None, kind: "empty".into(), link_to: None },
+        3 | 4 => SrcFile { path, text: String::new(), hex: Some("6c657420fffe203d20313b0a".into()), kind: "non_utf8".into(), link_to: None },
+        5 => SrcFile { path, text: "let a = \u{0}1;\nconsole.log(a);\n".into(), hex: None, kind: "binary".into(), link_to: None },
+        6 => SrcFile { path, text: String::new(), hex: None, kind: "big_short".into(), link_to: None },
+        _ => SrcFile { path, text: String::new(), hex: None, kind: "oversize".into(), link_to: None },
       }
     } else {
-      SrcFile { path, text: gen_source(rng, lang), hex: None, kind: "normal".into() }
+      SrcFile { path, text: gen_source(rng, lang), hex: None, kind: "normal".into(), link_to: None }
     };
     files.push(f);
   }
@@ -389,7 +411,20 @@ pub fn gen_world(rng: &mut Rng, o: &GenOpts) -> CliWorld {
     }
   }
   if rng.chance(0.1) {
-    files.push(SrcFile { path: "notes.txt".into(), text: "console.log(1)\n".into(), hex: None, kind: "normal".into() });
+    files.push(SrcFile { path: "notes.txt".into(), text: "console.log(1)\n".into(), hex: None, kind: "normal".into(), link_to: None });
+  }
+  // a second path for an existing file (hard link): a distinct eligible file of the tree
+  if o.hard_links && rng.chance(0.12) {
+    let normal: Vec<SrcFile> = files.iter().filter(|f| f.kind == "normal").cloned().collect();
+    if !normal.is_empty() {
+      let t = rng.pick(&normal);
+      let ext = t.path.rsplit('.').next().unwrap_or("ts").to_string();
+      let dir = rng.pick(DIRS);
+      let path = format!("{dir}link{}.{ext}", files.len());
+      if !dir.starts_with('.') && !dir.contains("/.") {
+        files.push(SrcFile { path, text: t.text.clone(), hex: None, kind: "normal".into(), link_to: Some(t.path.clone()) });
+      }
+    }
   }
   let ignore_file = if rng.chance(0.15) { Some("vendor/\n".to_string()) } else { None };
   let _ = lang_of_ext;
